@@ -1,3 +1,25 @@
+def gen_repeated(tier, rng):
+    """an axis named twice: NumPy refuses the argument ("duplicate value in 'axis'"), the code does not look.  With keepdims the
+    loops of remove_dims / reduction_slices are indifferent to the repetition: the view is NumPy's result for the
+    de-duplicated list (theorem reduce_repeated_axes_keepdims; the oracle folds by the SET of axes).  Without keepdims
+    remove_dims writes past its result (model: UB) — not requested."""
+    R, E = (3, 3) if tier == 'quick' else (4, 3)
+    for s in shapes(R, E, min_rank=1):
+        nd, n = len(s), prod(s)
+        data = list(range(1, n + 1))
+        for t in range(2):
+            k = rng.randrange(nd)
+            axes = [k, k - nd] if t == 0 else [rng.randrange(nd) for _ in range(rng.randint(2, 3))] + [k, k]
+            rng.shuffle(axes)
+            for init in (None, 7):
+                kd = rng.choice(['ct', 'rt'])
+                oshape, ores = ref_reduce(f31, data, s, axes, True, init)
+                yield Case('reduce op=f31 shape=%s axis=%s keepdims=1 init=%s kd=%s ax=vec' % (fmt(s), fmt(axes), init, kd), 'h_c08',
+                           oracle=ans(oshape, ores), nontrivial=any(s[a % nd] > 1 for a in axes), tags=['reduce', 'repeated-axis', 'rank=%d' % nd])
+            yield Case('remove_dims shape=%s axis=%s keepdims=1' % (fmt(s), fmt(axes)), 'h_c08', oracle='ok ' + fmt(oshape),
+                       tags=['remove_dims', 'repeated-axis'])
+
+
 """C08 — reductions and accumulations fold exactly the addressed elements, in order.
 IMPL: view::reduce / view::accumulate (custom order-revealing functor and the named ufuncs), index::remove_dims,
 index::reduction_slices, sum/prod/amax/amin/mean/var/stddev/cumsum/cumprod/vector_norm/trace.
@@ -14,33 +36,46 @@ RULE = ('exhaustive: every shape of rank 1..R with extents 1..E (quick R=E=3, th
         '(all-positive, all-negative, mixed-sign + shuffled order) and None x keepdims false/true (compile-time True/False, run-time bool, '
         'argument omitted) x initial absent/present x axis kind int/vector, through view::reduce with the order-revealing functor '
         'f(a,b)=31a+b on uint32 (data[k]=k+1); view::accumulate on every axis; index::remove_dims / reduction_slices directly; '
-        'named routines against NumPy on integer-valued data; plus seeded random shapes of rank 1..5 / extents 1..7. non-trivial = some fold combines >= 2 elements')
+        'named routines against NumPy on integer-valued data (dtype absent/int64/float32/float64 x initial absent/present); '
+        'fixed-dim sources (shape in std::array) with every axis listed explicitly as run-time int / std::array / tuple of ct, '
+        'where the view is a number read through reduce_t::operator num_type(); every shape of rank 1..R with extents 0..2 containing a 0 '
+        '(empty results; folds over no element = known finding); an axis named several times under keepdims; trace for every ordered axis '
+        'pair (positive / negative spelling) and every offset, through the Lean model; plus seeded random shapes of rank 1..5 / extents 1..7. '
+        'non-trivial = some fold combines >= 2 elements')
 EXHAUSTIVE = {'quick': True, 'thorough': True}
 ANCHORS = {
     'NmVerif.Reduce.normalizeAxis/normalizeAxes': 'index::normalize_axis',
     'NmVerif.Reduce.removeDims': 'index::remove_dims',
     'NmVerif.Reduce.reductionSlices': 'index::reduction_slices',
     'NmVerif.Reduce.reducer': 'view::reducer_t::operator()',
-    'NmVerif.Reduce.reduceElem/reduce': 'view::reduce_t::operator(), reduce_t<axis=None>, view::reduce (run-time keepdims -> either)',
+    'NmVerif.Reduce.flattenReduce': 'unwrap(view::flatten(x)) + reducer_t in reduce_t / accumulate_t (Nothing for a zero-size x)',
+    'NmVerif.Reduce.reduceElem/reduce': 'view::reduce_t::operator(), operator num_type(), reduce_t<axis=None>, view::reduce (run-time keepdims -> either)',
     'NmVerif.Reduce.accumulateElem/accumulate': 'view::accumulate_t::operator()',
+    'NmVerif.Reduce.diagonal/trace': 'view::diagonal (index::shape_diagonal, index::diagonal), view::trace = view::sum(diagonal, -1)',
 }
 MANIFEST = dict(
-    text='Proof: 24 Lean theorems over every rank/extent/axis list and an arbitrary binary op (no commutativity or associativity assumed): '
-         'result shape = NumPy (single/multi/negative/unsorted axes, keepdims, None), each result element = left fold of exactly the source '
-         'elements with matching non-reduced coordinates in increasing C order, independence of the order of the axis list, accumulate = '
+    text='Proof: 39 Lean theorems over every rank/extent/axis list and an arbitrary binary op (no commutativity or associativity assumed): '
+         'result shape = NumPy (single/multi/negative/unsorted axes, keepdims, None; extents 0 included), each result element = left fold of '
+         'exactly the source elements with matching non-reduced coordinates in increasing C order (for every shape whose REDUCED extents are '
+         'positive: kept extents may be 0), independence of the order of the axis list and, under keepdims, of repetitions in it, accumulate = '
          'running fold, all addressed indices in bounds, sum/prod/amax/amin/cumsum/cumprod as instances, mean/var/stddev/vector_norm as '
-         'plumbing statements over abstract element operations; tied to the C++ by an exhaustive small-scope differential run of '
-         'view::reduce/accumulate with an order-revealing functor and of the named routines against NumPy on every check.',
+         'plumbing statements over abstract element operations, trace = fold of the diagonal elements for every axis pair and offset with a '
+         'non-empty diagonal; tied to the C++ by an exhaustive small-scope differential run of view::reduce/accumulate with an '
+         'order-revealing functor (dynamic-dim and fixed-dim sources, array- and number-typed views) and of the named routines against '
+         'NumPy on every check.',
     note='Lean kernel + propext/Classical.choice/Quot.sound; model hand-written, fidelity rests on the correspondence run; slicing by in-range '
          '(start,stop) pairs is taken as C05 proves it, the broadcast inside var as C06 proves it; float arithmetic of mean/var/stddev/vector_norm '
-         'is compared with NumPy under a tolerance; trace has no Lean statement; one genuine defect listed as known finding '
-         '(trace with a negative offset, in index::diagonal); fixed-shape and clipped container kinds are in C09.',
+         'is compared with NumPy under a tolerance; two known findings with one root cause (a fold over NO element — reduced axis of extent 0, '
+         'empty diagonal — unwraps the Nothing that view::flatten returns for a zero-size array; fixes/C08-trace-empty-diagonal.diff); '
+         'fixed-shape and clipped container kinds are in C09.',
     technique='Lean 4 induction proofs over List Nat shapes + differential correspondence (exhaustive small scope) + NumPy oracle')
 ASSUMPTIONS = ['apply_slice with in-range pairs 0 <= start < stop <= extent has shape stop-start and reads start+d (C05 domain theorem; observed here through every element of every reduction)',
                'uint32 arithmetic of the order-revealing functor is modelled as Nat mod 2^32',
-               'compile-time axes are exercised as meta::ct<k> and tuples of ct on dynamic arrays (rank <= 3); fixed-shape / clipped kinds are covered by the C09 kind matrix, not here']
-PARTIAL = ['trace: no Lean statement here (sum over the last axis of view::diagonal; the diagonal index map belongs to C04/C16); covered by comparison with numpy.trace for every axis pair and every offset with a non-empty diagonal',
-           'mean_eq_sum_div_count / var_eq_mean_sq_dev / stddev_eq_sqrt_var / vector_norm_eq are plumbing statements over abstract element operations (which elements are folded, in which order, divided by their count); var takes the broadcast of the keepdims mean against the input as the index map C06 proves; the float arithmetic itself is compared with NumPy under a tolerance']
+               'compile-time axes are exercised as meta::ct<k> and tuples of ct on dynamic-dim arrays (rank <= 3) and on fixed-dim arrays (all axes listed); fixed-shape / clipped kinds are covered by the C09 kind matrix, not here',
+               'the diagonal index functions (Linalg.shapeDiagonal / diagonalIdx) are the mirrors written for C16; here they are tied to the code through every element of every trace request']
+PARTIAL = ['mean_eq_sum_div_count / var_eq_mean_sq_dev / stddev_eq_sqrt_var / vector_norm_eq (and their _pos_axes forms) are plumbing statements over abstract element operations (which elements are folded, in which order, divided by their count); var takes the broadcast of the keepdims mean against the input as the index map C06 proves; the float arithmetic itself is compared with NumPy under a tolerance',
+           'a fold over no element (some reduced extent 0, result non-empty; empty diagonal of trace) is NOT equal to NumPy in the unchanged code: the model mirrors the UB (reduce_elem_empty_fold_ub, reduce_empty_fold_counterexample, trace_empty_diagonal_counterexample), the requests of that class are judged by the NumPy oracle only and reported as KNOWN-FINDING; once fixes/C08-trace-empty-diagonal.diff is applied, flattenReduce / foldFirstNE must return the initial value or the identity for the empty list and those requests become model=True',
+           'var / stddev on a shape with a REDUCED extent 0 are not requested: view::var fails earlier, in the broadcast of the keepdims mean against the input (index::broadcast_shape((0,0),(1,0)) answers (1,0); NumPy (0,0)) — a broadcasting matter outside this property, reported to the lead']
 TRUSTED = []
 
 
